@@ -222,7 +222,6 @@ class Tokenizer:
                             'STRING',
                             'URI',
                             'HASH',
-                            'COMMENT',
                             'FUNCTION',
                             'INVALID',
                             'UNICODE-RANGE',
